@@ -11,6 +11,7 @@ import (
 	"github.com/acarl005/stripansi"
 	"github.com/mattn/go-runewidth"
 	"github.com/vbauerster/mpb/v8/decor"
+	"github.com/vbauerster/mpb/v8/internal/verifhook"
 )
 
 // Bar represents a progress bar.
@@ -409,11 +410,13 @@ func (b *Bar) serve(bs *bState) {
 		select {
 		case op := <-b.operateState:
 			op(bs)
+			verifhook.Event(verifhook.BarOp, b, bs.current, bs.total, bs.refill, bs.triggerComplete, bs.aborted, bs.rmOnComplete, bs.shutdown)
 		case <-b.ctx.Done():
 			decoratorsOnShutdown(bs.decorGroups[0])
 			decoratorsOnShutdown(bs.decorGroups[1])
 			// bar can be aborted by canceling parent ctx without calling b.Abort
 			bs.aborted = !bs.completed()
+			verifhook.Event(verifhook.BarExit, b, bs.current, bs.total, bs.aborted)
 			b.bs = bs
 			close(b.bsOk)
 			b.container.bwg.Done()
@@ -425,6 +428,7 @@ func (b *Bar) serve(bs *bState) {
 func (b *Bar) render(tw int) {
 	fn := func(s *bState) {
 		frame := new(renderFrame)
+		verifhook.Event(verifhook.BarRender, b, s.current, s.total, s.refill, s.aborted, s.completed(), s.shutdown, tw)
 		stat := s.newStatistics(tw)
 		r, err := s.draw(stat)
 		if err != nil {
@@ -461,11 +465,14 @@ func (b *Bar) tryEarlyRefresh(renderReq chan<- time.Time) {
 		}
 		return true // continue traverse
 	})
+	verifhook.Event(verifhook.EarlyDecide, b, otherRunning)
 	if otherRunning == 0 {
 		for {
 			select {
 			case renderReq <- time.Now():
+				verifhook.Event(verifhook.EarlyReq, b)
 			case <-b.ctx.Done():
+				verifhook.Event(verifhook.EarlyExit, b)
 				return
 			}
 		}
@@ -553,6 +560,7 @@ func (s *bState) wSyncTable() (table syncTable) {
 
 func (s *bState) triggerCompletion(b *Bar) {
 	s.triggerComplete = true
+	verifhook.Event(verifhook.BarTrigger, b, s.autoRefresh)
 	if s.autoRefresh {
 		// Technically this call isn't required, but if refresh rate is set to
 		// one hour for example and bar completes within a few minutes p.Wait()
